@@ -245,6 +245,10 @@ func catch(f func()) (panicked string) {
 }
 
 // FileWriter used directly: header then blocks of arbitrary already-encoded rows.
+// fwMirror: the application writes the same container to a second destination as well (one FileWriter, two headers,
+// every block to both); the events are those of the first destination
+var fwMirror bool
+
 func runFileWriterHistory(c *driverCtx, key, codec string, blocks [][2]any, failAt, accept int, ref []byte) (writes int, out []byte) {
 	w, wr := faultWriter(failAt, accept, writerMode)
 	seen := false
@@ -278,6 +282,10 @@ func runFileWriterHistory(c *driverCtx, key, codec string, blocks [][2]any, fail
 	}
 	p := catch(func() { err = fw.WriteHeader(wr) })
 	emit("enc_new", map[string]any{"ref": refNode, "hasref": ref != nil, "failAt": failAt, "accept": accept}, err, p)
+	var side bytes.Buffer
+	if fwMirror {
+		catch(func() { fw.WriteHeader(&side) })
+	}
 	// the payloads are sub-slices of one backing array (a caller that batches encodings); what each block was meant
 	// to hold is recorded before any call is made
 	var backing []byte
@@ -295,6 +303,9 @@ func runFileWriterHistory(c *driverCtx, key, codec string, blocks [][2]any, fail
 			break
 		}
 		count, raw := b[0].(int), backing[offs[i]:offs[i+1]]
+		if fwMirror {
+			catch(func() { fw.WriteBlock(&side, count, raw) })
+		}
 		p := catch(func() { err = fw.WriteBlock(wr, count, raw) })
 		emit("fw_block", map[string]any{"count": count, "raw": wanted[i]}, err, p)
 	}
@@ -535,7 +546,12 @@ func driveEncoder(c *driverCtx, prop string) error {
 			blocks[j] = [2]any{1 + c.rng.Intn(100), payload(c.rng, c.rng.Intn(200)*min(c.rng.Intn(4), 1))} // one in four payloads is empty
 		}
 		key := fmt.Sprintf("%s|filewriter|%s|blocks%d", prop, codec, nb)
+		fwMirror = i%3 == 1
+		if fwMirror {
+			key += "|mirrored"
+		}
 		writes, ref := runFileWriterHistory(c, key, codec, blocks, 0, 0, nil)
+		fwMirror = false
 		if prop == "C16" {
 			for k := 1; k <= writes; k++ {
 				writerMode = (k + i) % 6
